@@ -76,3 +76,7 @@ def cases(tier, seed, ctx=None):
     # a connection that simply lives long (the client pauses in the middle of the body): served like over plain TCP
     slow = b"POST /slow HTTP/1.1\r\nHost: h\r\nContent-Length: 10\r\n\r\n0123456789"
     yield ("tls", [1, slow, len(slow) - 5, 11000 if quick else 31000], "long-lived")
+    # the server object destroyed while handshakes are pending: the connections go with it, nothing completes afterwards
+    for n in (1, 2, 3):
+        for after in (0, 1):
+            yield ("tls", [4, n, after], "destroyed-mid-handshake")
